@@ -20,7 +20,7 @@ TIERS = {"quick": {"n": 700}, "thorough": {"n": 9000}}
 RULE = ("histories of add/remove/discard/pop/clear/sort/reverse, update/intersection_update/difference_update/"
         "symmetric_difference_update (method and operator forms, 0-3 operands of type set/frozenset/list/tuple/"
         "IndexedSet, generators for update), union/intersection/difference/symmetric_difference/rsub, "
-        "issubset/issuperset/isdisjoint, s[i], s[a:b:k], index, count, in, len, iter, reversed; after every "
+        "issubset/issuperset/isdisjoint, == != <= < >= >, the same calls with the set itself as operand, s[i], s[a:b:k], index, count, in, len, iter, reversed; after every "
         "operation len(s) and digests of [s[i] for i in range(len(s))] and list(s) are recorded, at snapshot "
         "operations every s[i] for -len<=i<len, index() of every item and reversed().  Streams: mixed, "
         "deletion-heavy (compaction, right-trim), directed stale-interval, directed empty-and-refill, set-algebra, spec-validation.  non-trivial = a deletion away from the tail is later followed by a positional read, or a "
@@ -263,11 +263,26 @@ def _setop(rng, ref, univ, sortable):
         o = _operand(rng, ref, univ)
         form = rng.choice(["method", "operator"] + (["roperator"] if o[0] in ("set", "frozenset") else []))
         return ["symdiff", o, form]
-    if r < 0.88:
+    if r < 0.885:
+        ck = rng.choice(["eq", "ne", "le", "lt", "ge", "gt"])
+        kinds = OPD_KINDS if ck in ("eq", "ne") else ["set", "frozenset", "iset"]
+        o = _operand(rng, ref, univ, kinds)
+        if rng.random() < 0.3 and ref.l:             # same items: equal / reordered / one more / one less
+            xs = list(ref.l)
+            q = rng.random()
+            if q < 0.3:
+                rng.shuffle(xs)
+            elif q < 0.5:
+                xs.append(univ + 1)
+            elif q < 0.7:
+                xs.pop(rng.randrange(len(xs)))
+            o = [o[0], xs]
+        return ["cmp", ck, o]
+    if r < 0.91:
         return ["rsub", _operand(rng, ref, univ, ["set", "frozenset"])]
-    if r < 0.92:
+    if r < 0.94:
         return ["issubset", _operand(rng, ref, univ)]
-    if r < 0.96:
+    if r < 0.97:
         return ["issuperset", _operand(rng, ref, univ)]
     return ["isdisjoint", _operand(rng, ref, univ)]
 
@@ -633,6 +648,26 @@ class ListRef:
         self.symmetric_difference_update(o)
         return self
 
+    def __eq__(self, o):
+        return self.l == o.l if isinstance(o, ListRef) else set(self.l) == set(o)
+
+    def __ne__(self, o):
+        return not self.__eq__(o)
+
+    __hash__ = None
+
+    def __le__(self, o):
+        return set(self.l) <= set(o)
+
+    def __lt__(self, o):
+        return set(self.l) < set(o)
+
+    def __ge__(self, o):
+        return set(self.l) >= set(o)
+
+    def __gt__(self, o):
+        return set(self.l) > set(o)
+
     def issubset(self, o):
         return set(self.l).issubset(set(o))
 
@@ -735,6 +770,10 @@ def _run_history(case, IndexedSet):
                     o = _mk_operand(IndexedSet, T, kind, toks)
                     operands.append(o)
                     orders.append(list(toks) if kind in ("gen", "iter") else tl(o))
+            elif k == "cmp":
+                o = _mk_operand(IndexedSet, T, op[2][0], op[2][1])
+                operands.append(o)
+                orders.append(tl(o))
             elif k in ("sdupdate", "symdiff", "rsub", "issubset", "issuperset", "isdisjoint"):
                 o = _mk_operand(IndexedSet, T, op[1][0], op[1][1])
                 operands.append(o)
@@ -857,6 +896,10 @@ def _run_history(case, IndexedSet):
                     ret = ["bool", s.isdisjoint(s)]
                 else:
                     raise AssertionError(op)
+            elif k == "cmp":
+                o = operands[0]
+                ret = ["bool", {"eq": lambda: s == o, "ne": lambda: s != o, "le": lambda: s <= o,
+                                "lt": lambda: s < o, "ge": lambda: s >= o, "gt": lambda: s > o}[op[1]]()]
             elif k == "get":
                 ret = ["item", T.tok(s[op[1]])]
             elif k == "slice":
@@ -965,6 +1008,10 @@ def _op(op, orders):
     if k in single:
         assert len(orders) == 1
         return "%s %s" % (single[k], _opd(op[1][0], orders[0]))
+    if k == "cmp":
+        assert len(orders) == 1
+        return "Cmp %s %s" % ({"eq": "CEq", "ne": "CNe", "le": "CLe", "lt": "CLt", "ge": "CGe", "gt": "CGt"}[op[1]],
+                              _opd(op[2][0], orders[0]))
     if k == "self":
         return "SelfOp %s" % {"update": "SUpdate", "iupdate": "SIntersectionUpdate", "dupdate": "SDifferenceUpdate",
                               "sdupdate": "SSymDiffUpdate", "union": "SUnion", "inter": "SIntersection",
@@ -1116,7 +1163,7 @@ def distribution(d, case, obs):
     kinds = d.setdefault("operand_kinds", {})
     arity = d.setdefault("operand_arity", {})
     for op in case["ops"]:
-        name = op[0] + (":" + op[1] if op[0] == "self" else "") + \
+        name = op[0] + (":" + op[1] if op[0] in ("self", "cmp") else "") + \
             (":" + op[2] if len(op) > 2 and isinstance(op[2], str) and op[2] != "method" else "")
         ops[name] = ops.get(name, 0) + 1
         if op[0] in ("update", "iupdate", "dupdate", "union", "inter", "diff"):
